@@ -7,6 +7,10 @@
 2. Fault enumeration on the real code: for every corpus font and EVERY k in 0..len(file):
    Write, WriteTrueTypePDF, WriteOpenTypeCFFPDF, (*cff.Font).Write against the faulting destination (three
    modes) and sfnt.Read against the cut file / failing io.ReaderAt / cut and failing plain io.Reader.
+   sfnt.Read is also given the same tables re-assembled by an independent writer with every table in
+   turn physically last and with an unknown last table of length 0..3 (mod 4), and the Go fonts shipped
+   with golang.org/x/image (last table copied undecoded): k in windows around every table boundary in
+   the quick tier, every k for the small files and Go Regular in the thorough tier.
    Every run is recorded as one event (sampled k also call by call) and judged by TLC against
    IOFaultTrace.tla.  A failing run is re-run alone and re-validated before it counts.
 """
@@ -26,8 +30,11 @@ MANIFEST = {
             "failing from k on, and the same through a plain io.Reader. TLC judges every recorded run against "
             "IOFaultTrace.tla (error iff k < total, count = bytes accepted, success count = file length, cut inside "
             "table data rejected, failed access never swallowed, no panic); the rules are established on the model "
-            "IOFault.tla, which TLC checks exhaustively for all small layouts, all k and all modes.",
-    "note": "Exhaustive over k for the corpus fonts only. A cut that removes only trailing padding may be accepted. "
+            "IOFault.tla (tables decoded / copied raw / skipped; a must-fail run without the end-of-table probe), "
+            "which TLC checks exhaustively for all small layouts, all k and all modes. Read files include every table "
+            "in turn as physically last table (independent re-assembly) and the shipped Go fonts.",
+    "note": "Exhaustive over k for the files written from the corpus fonts (re-assembled variants and Go fonts: windows "
+            "around table boundaries in the quick tier). A cut that removes only trailing padding may be accepted. "
             "For the failing ReaderAt the oracle is 'an access failed => error' (accesses are what the reader needs). "
             "Trusted: TLC, the fault-injecting writer/readers of the harness (their behaviour is itself checked "
             "against the destination/source model on the sampled call-by-call traces), the directory walker "
@@ -51,10 +58,10 @@ CHECK_DEADLOCK FALSE
 """
 
 
-def _cfg(maxtables, maxlen, wmodes, rmodes, chunk):
+def _cfg(maxtables, maxlen, wmodes, rmodes, chunk, probe=True):
     q = lambda xs: "{%s}" % ", ".join('"%s"' % x for x in xs)
-    return ("CONSTANTS\n  MaxTables = %d\n  MaxLen = %d\n  WModes = %s\n  RModes = %s\n  Chunk = %d\n"
-            % (maxtables, maxlen, q(wmodes), q(rmodes), chunk)) + _INV
+    return ("CONSTANTS\n  MaxTables = %d\n  MaxLen = %d\n  WModes = %s\n  RModes = %s\n  Chunk = %d\n  Probe = %s\n"
+            % (maxtables, maxlen, q(wmodes), q(rmodes), chunk, "TRUE" if probe else "FALSE")) + _INV
 
 
 W3 = ["exact", "atomic", "short"]
@@ -78,7 +85,8 @@ def _tlc_trace(ctx, trace, label):
 
 def _sig(group, clause):
     kind = group["name"].split("-")[0]
-    return {"op": group["op"], "mode": group["mode"], "clause": clause, "outlines": kind}
+    return {"op": group["op"], "mode": group["mode"], "clause": clause, "outlines": kind,
+            "file": (group.get("variant") or "written").split(":")[0]}
 
 
 def _replay_case(ctx, case, count=1, strict=True):
@@ -99,9 +107,10 @@ def _replay_case(ctx, case, count=1, strict=True):
         raise vlib.Infra("failure of run %s/%s k=%d did not reproduce in isolation" % (case["op"], case["mode"], case["k"]))
     events = vlib.read_ndjson(tp)
     line, _, k, clause = fails[0]
-    what = ("%s of font %s with source/destination mode '%s' and fault point k=%d (file length %d, table data ends "
+    what = ("%s of font %s%s with source/destination mode '%s' and fault point k=%d (file length %d, table data ends "
             "at %d): clause '%s' of IOFaultTrace rejects the run: %s; %d run(s) fail with this signature" % (
-                case["op"], case["name"], case["mode"], k, events[0]["total"], events[0]["dataEnd"], clause,
+                case["op"], case["name"], (" [file variant %s]" % case["variant"]) if case.get("variant") else "",
+                case["mode"], k, events[0]["total"], events[0]["dataEnd"], clause,
                 json.dumps(events[line - 1])[:400], count))
     ctx.violation(what, sig=_sig(case, clause), case=case)
 
@@ -115,19 +124,31 @@ def run(ctx):
     ]
     # 1. the model
     if ctx.quick():
-        models = [("3 tables, lengths 0..4, all modes", _cfg(3, 4, W3, R4, 3))]
-        bounds = {"model": "layouts of 1..3 tables, lengths 0..4, every k, 3 destination and 4 source modes, every need set"}
+        models = [("writers: 3 tables, lengths 0..4", _cfg(3, 4, W3, [], 3)),
+                  ("readers: 2 tables, lengths 0..5", _cfg(2, 5, [], R4, 3)),
+                  ("readers: 3 tables, lengths 0..2", _cfg(3, 2, [], R4, 2))]
+        bounds = {"model": "writers: 1..3 tables, lengths 0..4; readers: 1..2 tables, lengths 0..5 and 1..3 tables, "
+                           "lengths 0..2; every k, every mode, every classification decoded/raw/skipped of the tables"}
     else:
         models = [("writers: 4 tables, lengths 0..5", _cfg(4, 5, W3, [], 3)),
-                  ("readers: 3 tables, lengths 0..6", _cfg(3, 6, [], R4, 4)),
-                  ("readers: 4 tables, lengths 0..2", _cfg(4, 2, [], R4, 1))]
-        bounds = {"model": "writers: 1..4 tables, lengths 0..5; readers: 1..3 tables, lengths 0..6 and 1..4 tables, "
-                           "lengths 0..2; every k, every mode, every need set"}
+                  ("readers: 3 tables, lengths 0..4", _cfg(3, 4, [], R4, 3)),
+                  ("readers: 4 tables, lengths 0..1", _cfg(4, 1, [], R4, 1))]
+        bounds = {"model": "writers: 1..4 tables, lengths 0..5; readers: 1..3 tables, lengths 0..4 and 1..4 tables, "
+                           "lengths 0..1; every k, every mode, every classification decoded/raw/skipped of the tables"}
     for label, cfg in models:
         res = ctx.tlc("IOFault", cfg="IOX.cfg", files={"IOX.cfg": cfg}, timeout=2400, label="IOFault exhaustive: " + label)
         if not res.ok:
             raise vlib.Infra("IOFault.tla violates %s on the model (%s) -- the spec is wrong, not the code:\n%s"
                              % (res.violated, label, res.error_text[:1500]))
+
+    # must-fail: without the end-of-last-table probe the model has to accept a cut inside a raw/skipped
+    # last table (otherwise RTruncRejected would say nothing about the probe)
+    res = ctx.tlc("IOFault", cfg="IONP.cfg", files={"IONP.cfg": _cfg(2, 3, [], ["trunc", "strunc"], 2, probe=False)},
+                  timeout=600, label="IOFault without the probe (must violate RTruncRejected)")
+    if res.violated != "RTruncRejected":
+        raise vlib.Infra("IOFault.tla without the probe does not violate RTruncRejected (got %s): the model is vacuous"
+                         % res.violated)
+    ctx.notes.append("must-fail model run: IOFault with Probe = FALSE violates RTruncRejected, as required")
 
     # 2. fault enumeration on the real code
     binp = ctx.build("c18")
@@ -183,7 +204,7 @@ def run(ctx):
             key = json.dumps(_sig(groups[g], clause), sort_keys=True)
             f = failing.setdefault(key, {"n": 0, "g": g, "k": k})
             f["n"] += 1
-            if (groups[g]["total"], k) < (groups[f["g"]]["total"], f["k"]):
+            if (groups[g]["total"], -k) < (groups[f["g"]]["total"], -f["k"]):
                 f["g"], f["k"] = g, k
         with open(os.path.join(d, p)) as fh:
             for ln in fh:
@@ -208,9 +229,15 @@ def run(ctx):
                        "operation x mode x k, plus call-by-call re-runs for sampled k); distinct_nontrivial = distinct "
                        "(font, operation, mode, k) with the fault point inside the file (k < len(file))")
     ctx.cov["exhaustive"] = True
-    nfonts = len(set(g["fi"] for g in groups.values()))
-    bounds.update({"fault_points": "every k in 0..len(file) for each of %d corpus fonts (%s)" % (
-                       nfonts, ", ".join(sorted(set("%d B" % g["total"] for g in groups.values() if g["op"] == "Write")))),
+    nfonts = len(set(g["fi"] for g in groups.values() if g["fi"] >= 0))
+    nwin = len(set((g["fi"], g["variant"]) for g in groups.values() if g["ksel"] == "win"))
+    nall = len(set((g["fi"], g["variant"]) for g in groups.values() if g["ksel"] == "all" and g["variant"]))
+    bounds.update({"fault_points": "every k in 0..len(file) for each of %d corpus fonts (%s) and for %d re-assembled/Go-font "
+                                   "files; windows of +-6 bytes around every table boundary, the directory and the file "
+                                   "end for %d more files (each table in turn physically last, unknown last table of "
+                                   "length 0..3 mod 4, Go fonts as shipped)" % (
+                       nfonts, ", ".join(sorted(set("%d B" % g["total"] for g in groups.values() if g["op"] == "Write"))),
+                       nall, nwin),
                    "operations": per_op, "destination_modes": W3, "source_modes": R4,
                    "trace_events_validated": events})
     ctx.cov["bounds"] = bounds
